@@ -187,6 +187,21 @@ def run_fields(spec, rec):
                 levels.append(1)
             for level in levels:
                 check_field_row(core, parser, v, row, level, rec)
+        # one field beyond the table (TOLERANT keeps it, datatype unknown) whose components have gaps: each value is parsed
+        # from, and encoded at, its own component position
+        if rows[-1].ok and rows[-1].datatype != 'varies' and seg != 'MSH':
+            text = seg + '|' * (rows[-1].num + 1) + 'A^^C^^^F'
+            case = {'kind': 'beyond-table', 'version': v, 'segment': seg, 'text': text}
+            rec.evaluation(('beyond', v, seg))
+            try:
+                out = parser.parse_segment(text, version=v, validation_level=2).to_er7()
+                rec.count('beyond_table_component_gap_checks')
+                if out != text:
+                    rec.violation('component-of-unknown-field-wrong-position', case, {'reencoded': out[-30:]},
+                                  row='%s|%s' % (v, seg))
+            except Exception as e:
+                rec.violation('beyond-table-raised:%s' % type(e).__name__, case, {'exc': repr(e)[:200]},
+                              row='%s|%s' % (v, seg))
     rec.count('field_rows_enumerated', nrows)
     rec.count('field_rows_in_tables', sum(len(r) for r in segs.values() if r) - 2)
     rec.seen('versions', v)
@@ -342,6 +357,23 @@ def check_open(core, parser, version, seg, idxs, level, rec):
                                                              'reencoded': s2.to_er7()[:300]},
                           row='%s|%s' % (version, seg))
             return
+        # the same text assigned to a fresh segment: same names, same encoding
+        s3 = core.Segment(seg, version=version, validation_level=level)
+        s3.value = er
+        got3 = {i: [c.to_er7() for c in s3.children.indexes.get('%s_%d' % (seg, i), [])] for i in idxs}
+        if any(got3[i] != [vals[i]] for i in idxs) or s3.to_er7() != er:
+            rec.violation('open-ended-assigned-text-mismatch', case, {'text': er[:300], 'got': str(got3)[:200],
+                                                                      'reencoded': s3.to_er7()[:300]},
+                          row='%s|%s' % (version, seg))
+            return
+        # components with gaps (p^^r) in fields beyond the table: every value at its own component position
+        gap = seg + '|' * idxs[-1] + 'p^^r^^^u'
+        s4 = parser.parse_segment(gap, version=version, validation_level=level)
+        lv4 = er7ref.leaves(er7ref.tokenize_segment(s4.to_er7(), er7ref.STD)[1])
+        if s4.to_er7() != gap or [p[2] for p, _ in lv4] != [1, 3, 6]:
+            rec.violation('open-ended-component-gaps-mismatch', case, {'text': gap[-40:], 'reencoded': s4.to_er7()[-60:]},
+                          row='%s|%s' % (version, seg))
+            return
         rec.count('open_ended_positions_checked', len(idxs))
     except Exception as e:
         rec.violation('open-ended-raised:%s' % type(e).__name__, case, {'exc': repr(e)[:200]},
@@ -448,8 +480,11 @@ def replay(case, rec):
     if k == 'field':
         row = [r for r in tables.segments(v)[case['segment']] if r.name == case['row']][0]
         check_field_row(core, parser, v, row, case['level'], rec)
-    elif k == 'segment':
+    elif k in ('segment', 'beyond-table'):
         run_fields({'version': v}, rec)
+    elif k == 'varies':
+        row = [r for r in tables.segments(v)[case['segment']] if r.name == case['row']][0]
+        check_varies(core, parser, v, row, case['components'], case['level'], rec)
     elif k in ('component', 'subcomponent'):
         dt = case['datatype']
         cname = case['row'] if k == 'component' else case['component']
